@@ -612,6 +612,7 @@ func (q *BufferedChannelQueue[T]) notifyWorkers() {
 	if q.isClosed.Get() {
 		return
 	}
+	verifPoint("bq.notify.checked", q)
 
 	q.loadWorkerCh.Offer(1)
 	q.freeNodeWorkerCh.Offer(1)
